@@ -8,7 +8,9 @@ package c14
 import (
 	"fmt"
 	"os"
+	"strings"
 	"testing"
+	"unicode/utf8"
 
 	"github.com/alicebob/sqlittle"
 	sdb "github.com/alicebob/sqlittle/db"
@@ -201,7 +203,16 @@ func report(r *vt.Run, t vt.TB, spec interface{}, built *bt.Built, problem, sig 
 
 func genField(t *rapid.T, u int) fmtb.Field {
 	var f fmtb.Field
-	switch rapid.IntRange(0, 9).Draw(t, "fk") {
+	switch rapid.IntRange(0, 10).Draw(t, "fk") {
+	case 10:
+		// TEXT whose bytes are not well-formed UTF-8 (SQLite stores and
+		// returns any bytes: Latin-1 leftovers, cut-off sequences, surrogate
+		// halves); short, or long enough to spill
+		s := rapid.SampledFrom([]string{"\xe9", "caf\xe9", "\xff\xfe", "\xed\xa0\x80", "a\xc3", "\xf0\x9f\x98", "ok\x80ok", "\xc0\xaf", "\xfe", "z\xe9\xe8\xe7"}).Draw(t, "badutf8")
+		if rapid.IntRange(0, 3).Draw(t, "badlong") == 0 {
+			s = strings.Repeat(s, 1+u/len(s))
+		}
+		f.V = val.Text(s)
 	case 0:
 		// long value sized relative to the page
 		n := rapid.SampledFrom([]int{u - 40, u - 36, u - 35, u - 34, u, 2 * u, u/4 - 30, u / 4, 3*u + 7}).Draw(t, "ln") + rapid.IntRange(-3, 3).Draw(t, "ld")
@@ -316,7 +327,7 @@ func TestC14Records(t *testing.T) {
 				r.Exclude("layout-impossible")
 				return
 			}
-			overflow, highbit, multivar, widehdr, padded := false, false, false, false, false
+			overflow, highbit, multivar, widehdr, padded, badText := false, false, false, false, false, false
 			for _, row := range s.Img.Tables[0].Rows {
 				plen := len(fmtb.EncodeRecord(row.Fields, row.HdrLen))
 				if plen > fmtb.TableX(s.Img.PageSize) {
@@ -344,12 +355,15 @@ func TestC14Records(t *testing.T) {
 					if (f.V.T == 't' || f.V.T == 'b') && len(f.V.B) > 57 {
 						multivar = true
 					}
+					if f.V.T == 't' && !utf8.Valid(f.V.B) {
+						badText = true
+					}
 				}
 			}
 			r.Case(s, overflow || highbit || multivar,
 				fmt.Sprintf("rec:ps=%d", s.Img.PageSize), fmt.Sprintf("rec:overflow=%v", overflow), fmt.Sprintf("rec:widehdr=%v", widehdr),
 				fmt.Sprintf("rec:padded-varints=%v", padded), fmt.Sprintf("rec:depth=%d", built.Tables["t"].Shape.Depth), fmt.Sprintf("rec:idxdepth=%d", built.Tables["w"].IShape.Depth),
-				fmt.Sprintf("rec:in-header-size-stale=%v", s.Img.Header.StaleSize > 0))
+				fmt.Sprintf("rec:in-header-size-stale=%v", s.Img.Header.StaleSize > 0), fmt.Sprintf("rec:text-not-utf8=%v", badText))
 			if problem, sig := compare(built); problem != "" {
 				report(r, t, s, built, problem, sig)
 				return
